@@ -2,15 +2,18 @@
 from vp.sched.stream import SchedStream
 from vp.props.c01 import TRUSTED, ASSUMES  # noqa
 
-STREAMS = [SchedStream("C06", name="sched-hold", feat={"hold": True, "abs": True})]
+STREAMS = [SchedStream("C06", name="sched-hold", feat={"hold": True, "abs": True}),
+           # holds must persist across restarts: the restart scenarios of C19 (same feature set, shared runs)
+           SchedStream("C06", name="sched-restart", feat={"restart": True, "hold": True, "abs": True},
+                       n_quick=24, n_thorough=500)]
 META = {
     "level_text": ("Coq theorems over the pool automaton: a held task is never queued, never released from a queue and never enters "
                    "preparation unless manually triggered; the held flag is set only for instances in the hold set or beyond the hold "
                    "point and cleared only after release; a future instance in the hold set is held when it spawns; at every accepted tick "
                    "end the real hold set/hold point equal the abstract ones. Tie: real scheduler runs with generated hold / release / "
                    "set-hold-point / release-hold-point commands (on pooled and future ids) interleaved with spawning and job events must be "
-                   "accepted by the automaton. Persistence across restart is exercised by the C19 stream (restart scenarios compare the "
-                   "hold set after reload)."),
+                   "accepted by the automaton. Persistence across restart: the second stream stops and restarts the scheduler at generated "
+                   "iterations; the hold set, hold point and every held flag after reload must equal the abstract ones."),
     "level_note": TRUSTED[0],
     "technique": "Coq proof of hold guards of the pool automaton + in-Coq trace validation of real runs with hold commands",
     "design_ref": "5/C06",
